@@ -83,7 +83,10 @@ def handle (stream : String) (args : List String) : String :=
     let md : Option Mode := match m with
       | "webrtc" => some .webrtc | "srtp" => some .srtp | "rtp" => some .rtp | _ => none
     match md with
-    | some md => "".intercalate ((sectionTransportFlags md).map b01)
+    | some md =>
+      -- the distinct `srtp_required` values among the transports a section can be attached to
+      let fs := sectionTransportFlags md
+      (if fs.contains false then "0" else "") ++ (if fs.contains true then "1" else "")
     | none => "bad-mode"
   | _, _ => "bad-stream"
 
